@@ -138,6 +138,22 @@ def instances(tier, seed):
                 if n >= 3 and ti % 8 == 0:
                     add(kinds, tb, "Hopcroft-Karp", swaps=[0, 1], offset=False)
                     add(kinds, tb, "Hungarian", swaps=[1, 0], offset=False)
+    # long thin chains (11 / 12 sites, few terms): site indices and dof names with two digits, sweeps over more than ten cuts.  The dense operator
+    # (2048 x 2048 symbolic entries) is out of reach: compared are the blocks of the operator on the sites the terms touch with the untouched
+    # ("spectator") sites held in fixed basis states - all zero, all one, one spectator raised, one spectator off-diagonal (block must vanish)
+    for n_long, kind in ((11, "s"), (12, "e")):
+        kl = tuple([kind] * n_long)
+        L = n_long - 1
+        if kind == "s":
+            tbs = [{0: 1, L: 2}, {9: 3, L: 1}], [{1: 2, 2: 1, L: 4}, {2: 1, L: 4}, {1: 2}], [{9: 1, L: 1}, {2: 2, 9: 1}, {2: 2, L: 1}, {}], [{L: 3}, {0: 3}, {L: 3}]
+        else:
+            tbs = [{0: 1, L: 2}, {9: 1, L: 2}], [{1: 3, 2: 1, L: 2}, {2: 1, L: 2}, {1: 3}], [{9: 3, L: 3}, {2: 3, 9: 3}, {2: 3, L: 3}, {}], [{L: 3}, {0: 3}, {L: 3}]
+        for ti, tb in enumerate(tbs):
+            table = [tuple(t.get(i, 0) for i in range(n_long)) for t in tb]
+            for algo in ("Hopcroft-Karp", "Hungarian"):
+                out.append(dict(kinds=kl, table=[list(t) for t in table], algo=algo, swaps=[], offset=(ti % 2 == 0), long=True,
+                                label="mpo long chain %s x%d %s terms=%s%s" % (kind, n_long, algo, str(tb).replace(" ", ""), " +offset" if ti % 2 == 0 else ""),
+                                key="mpo/%s/long" % algo))
     # float build: complex coefficients with duplicate rows / an explicit identity next to an offset (the merged table goes through dtype-sensitive buffers)
     for kinds in (("s", "s", "s"), ("s", "w", "s")):
         nz = [t for t in all_terms(kinds) if any(t)]
@@ -354,6 +370,9 @@ def make_harness(P):
                     ctx.check("construction is rejected only for the identically-zero operator", ctx.all([ctx.eq(x, 0) for x in sums]))
                     return
                 raise
+            if P.get("long"):
+                _long_blocks(ctx, mpo, kinds, table, fs, off, P, n)
+                return
             # ---- oracle
             dims = [b.nbas for b in basis]
             D = int(np.prod(dims))
@@ -393,6 +412,60 @@ def make_harness(P):
             sm.scipy = saved[0]
             sm._decompose_qr = real_dqr
     return h
+
+
+def _block(mats, active, spect):
+    """block of the operator sum-of-products given per-site 4-leg tensors (l, up, down, r): spectator site i is held at <x_i| . |y_i>, active sites stay open"""
+    cur = np.ones((1, 1), dtype=object)          # (open legs flattened, bond)
+    shape = []
+    for i, m in enumerate(mats):
+        m = np.asarray(m)
+        if i in active:
+            d = m.shape[1]
+            cur = np.tensordot(cur, m, axes=(1, 0))          # (open, up, down, r)
+            cur = cur.reshape(-1, m.shape[3])
+            shape += [d, d]
+        else:
+            x, y = spect[i]
+            cur = cur.dot(m[:, x, y, :])
+    na = len(active)
+    t = cur.reshape(shape)
+    t = t.transpose([2 * k for k in range(na)] + [2 * k + 1 for k in range(na)])
+    D = int(np.prod(shape[::2])) if shape else 1
+    return t.reshape(D, D)
+
+
+def _long_blocks(ctx, mpo, kinds, table, fs, off, P, n):
+    active = sorted(set(i for t in table for i, k in enumerate(t) if k != 0))
+    spectators = [i for i in range(n) if i not in active]
+    configs = [dict((i, (0, 0)) for i in spectators), dict((i, (1, 1)) for i in spectators)]
+    for s_ in spectators:
+        c = dict((i, (0, 0)) for i in spectators)
+        c[s_] = (1, 1)
+        configs.append(c)
+        c = dict((i, (0, 0)) for i in spectators)
+        c[s_] = (0, 1)
+        configs.append(c)
+    got_all, ref_all = [], []
+    tens = lib.tensors(mpo)
+    for c in configs:
+        got_all.append(_block(tens, active, c))
+        ref = 0
+        for j, t in enumerate(table):
+            mats = [np.asarray(local_matrix(kinds[i], i, k), dtype=object).reshape(1, *np.shape(local_matrix(kinds[i], i, k)), 1) for i, k in enumerate(t)]
+            ref = ref + _block(mats, active, c) * fs[j]
+        ident = [np.eye(2, dtype=object).reshape(1, 2, 2, 1)] * n
+        ref = ref - _block(ident, active, c) * off
+        ref_all.append(ref)
+    ctx.check("long chain: every block (spectator sites held in basis states) equals the sum of tensor products minus the offset",
+              ctx.all([ctx.eq(g, r) for g, r in zip(got_all, ref_all)]))
+    charges = set(term_charge(kinds, t) for t in table)
+    if P["offset"]:
+        charges.add(0)
+    if len(charges) == 1:
+        ctx.check("labels describe the blocks of every site tensor (invariant)", lib.inv_relation(ctx, mpo))
+        ctx.check("total charge of the operator", lib.ctx_eq_labels(ctx, mpo.qntot, [charges.pop()]))
+    ctx.check("bond dimensions equal the maximum matching of each cut (minimum vertex cover)", _bonds_minimal(ctx, mpo, table, fs, off, P, n))
 
 
 def _permute_dense(ref, dims, perm):
@@ -443,7 +516,9 @@ def main(tier, seed):
                     "electron, harmonic oscillator (plain and shifted origin), two-DoF multi-electron sites; term tables = all single terms and pairs over a strided subset plus "
                     "seeded tables of 3-5 (6) terms with duplicate rows, repeated symbols on a site and explicit constant terms; all three algorithms (QR for tables of <= 3 "
                     "terms, LAPACK's pivoted QR by contract with the permutation and the rank as solver-chosen integers); single adjacent swaps at every position and two-swap "
-                    "sequences. Obligations: dense operator identity for all factors, label invariant, total charge, bond dimension = maximum matching at every cut.",
+                    "sequences. Obligations: dense operator identity for all factors, label invariant, total charge, bond dimension = maximum matching at every cut. Long thin chains "
+                    "(11 half-spin / 12 electron sites, 2-4 terms touching sites 0-2 and 9-11, both graph algorithms): every block of the operator on the touched sites with the "
+                    "untouched sites held in basis states (all 0, all 1, one raised, one off-diagonal) instead of the full dense matrix.",
         assumptions=["merged factors are exactly zero or above 1e-9 in magnitude (the code drops terms below 1e-15*max|f|; that band is a float-tolerance matter)",
                      "|f| <= 4", "pivoted QR by contract; entries of Q/R are exactly zero or above the code's 1e-10 tolerances (band excluded)",
                      "real factors and real local matrices in quick tier (terms whose local matrix is complex need a complex factor - the code raises a casting error otherwise)",
